@@ -67,16 +67,29 @@ func (h HostsList) AsList(sep string) []string {
 	return l
 }
 
+// rendered lists host names in order and keeps the addresses of one host in the order they were given, so that
+// loading the rendering gives the same HostsList back
+func (h HostsList) rendered() []string {
+	hosts := make([]string, 0, len(h))
+	for k := range h {
+		hosts = append(hosts, k)
+	}
+	sort.Strings(hosts)
+	list := make([]string, 0, len(h))
+	for _, k := range hosts {
+		for _, ip := range h[k] {
+			list = append(list, fmt.Sprintf("%s=%s", k, ip))
+		}
+	}
+	return list
+}
+
 func (h HostsList) MarshalYAML() (interface{}, error) {
-	list := h.AsList("=")
-	sort.Strings(list)
-	return list, nil
+	return h.rendered(), nil
 }
 
 func (h HostsList) MarshalJSON() ([]byte, error) {
-	list := h.AsList("=")
-	sort.Strings(list)
-	return json.Marshal(list)
+	return json.Marshal(h.rendered())
 }
 
 var hostListSerapators = []string{"=", ":"}
